@@ -51,6 +51,10 @@ def gen_einsum(rng):
         return n, ranks
     out = tensor()
     ins = [tensor() for _ in range(rng.randint(1, 4))]
+    if rng.random() < 0.15:
+        # in-place update: the output tensor also appears as an input (possibly with another projection)
+        k = rng.randrange(len(ins))
+        ins[k] = (out[0], out[1] if rng.random() < 0.5 else ins[k][1])
     return {"out": out, "ins": ins}
 
 
@@ -106,8 +110,13 @@ def verbose(e):
         if all(r[0] == "s" for r in rs):
             return [r[1] for r in rs]
         return {(r[1].upper() if r[0] == "s" else r[1]): (r[1] if r[0] == "s" else r[2]) for r in rs}
-    return {"name": e["out"][0], "tensor_accesses": [{"name": t[0], "projection": proj(t[1])} for t in e["ins"]] +
-            [{"name": e["out"][0], "projection": proj(e["out"][1]), "output": True}]}
+    # a tensor that occurs on both sides (in-place update) is ONE access: the entry keeps the position of its first occurrence
+    # and carries the left-hand side's projection and the output flag (the concise entry is merged by tensor name)
+    acc = {}
+    for t in e["ins"]:
+        acc[t[0]] = {"name": t[0], "projection": proj(t[1])}
+    acc[e["out"][0]] = {"name": e["out"][0], "projection": proj(e["out"][1]), "output": True}
+    return {"name": e["out"][0], "tensor_accesses": list(acc.values())}
 
 
 MALFORMED = [
@@ -180,14 +189,27 @@ def run(ck):
                 # through the public entry points: concise entry + extra attributes vs verbose form
                 try:
                     extra = {"name": e["ins"][0][0], "persistent": True}
+                    vi = [x["name"] for x in verbose(e)["tensor_accesses"]].index(e["ins"][0][0])
                     ec = Einsum(**_parse_einsum_entry({"einsum": s, "tensor_accesses": [extra]}))
                     v = verbose(e)
-                    v["tensor_accesses"][0]["persistent"] = True
+                    v["tensor_accesses"][vi]["persistent"] = True
                     evb = Einsum(**v)
                     a = [(t.name, dict(t.projection), t.output, t.persistent) for t in ec.tensor_accesses]
                     b = [(t.name, dict(t.projection), t.output, t.persistent) for t in evb.tensor_accesses]
                     if a != b or ec.name != evb.name:
                         bad = f"concise and verbose Einsum objects differ: {a} vs {b}"
+                    # extras that contradict what the string fixed (output flag / projection of an input) must be rejected or ignored, never applied
+                    tgt = [t for t in e["ins"] if t[0] != e["out"][0]]
+                    if not bad and tgt:
+                        for conflict in ({"name": tgt[0][0], "output": True}, {"name": tgt[0][0], "projection": {"Zz9": "q"}}):
+                            try:
+                                e2 = Einsum(**_parse_einsum_entry({"einsum": s, "tensor_accesses": [conflict]}))
+                                a2 = [(t.name, dict(t.projection), t.output) for t in e2.tensor_accesses]
+                                b2 = [(t.name, dict(t.projection), t.output) for t in evb.tensor_accesses]
+                                if a2 != b2:
+                                    bad = f"extra attributes {conflict} changed what the string defines: {a2} vs {b2}"
+                            except Exception:  # noqa
+                                pass
                 except Exception as ex:  # noqa
                     bad = f"building the Einsum failed: {type(ex).__name__}: {ex}"
         if bad:
